@@ -747,7 +747,10 @@ def execute(scenario, open_sigs):
             if got[0] != "fault":
                 viol("C12/fault-swallowed", {"what": tag})
         elif got[0] == "ok" and want[0] == "ok":
-            if not (_values_agree(got[1], want[1]) and (
+            # (a Fraction scalar among arrays makes the dtype depend on the order in which a
+            # merged, commuted sum adds its terms: object vs float64 -- only the nested-variant
+            # configuration, which is about types, compares dtypes)
+            if not (_values_agree(got[1], want[1], any_dtype=not nv) and (
                     not nv or type(got[1]) is type(want[1]))):
                 det = {"what": tag, "evaluator": e.desc, "got": str(canon(got[1])),
                        "want": str(canon(want[1])), "expr": str(canon(expr))[:600],
